@@ -11,10 +11,10 @@ use ats_smart_contract::ask_order::{AskOrderClass, AskOrderStatus, AskOrderV1, A
 use ats_smart_contract::bid_order::{BidOrderV3, BIDS_V3};
 use ats_smart_contract::common::{Action, FeeInfo};
 use ats_smart_contract::contract::{execute, instantiate, migrate, query};
-use ats_smart_contract::contract_info::{get_contract_info, set_contract_info, ContractInfoV3};
+use ats_smart_contract::contract_info::{set_contract_info, ContractInfoV3};
 use ats_smart_contract::msg::{ExecuteMsg, InstantiateMsg, MigrateMsg, QueryMsg};
 use ats_smart_contract::tests::test_utils::setup_asset_marker;
-use ats_smart_contract::version_info::{get_version_info, set_version_info, VersionInfoV1, CRATE_NAME};
+use ats_smart_contract::version_info::{set_version_info, VersionInfoV1, CRATE_NAME};
 use cosmwasm_std::testing::{mock_env, mock_info, MockApi, MockStorage};
 use cosmwasm_std::{
     coin, to_binary, Addr, BankMsg, Binary, Coin, ContractResult, CosmosMsg, Empty, Order, OwnedDeps, Response,
@@ -173,13 +173,14 @@ impl World {
     pub fn project(&self) -> StateT {
         let mut s = StateT::empty();
         for (k, v) in self.deps.storage.range(None, None, Order::Ascending) {
+            // the stored bytes themselves are parsed (not the crate's getters, which are code under test)
             if k == b"contract_info" {
-                match get_contract_info(&self.deps.storage) {
+                match serde_json::from_slice::<ContractInfoV3>(&v) {
                     Ok(ci) => s.cfg = cfg_from_chain(&ci),
                     Err(_) => s.extra.push("unreadable:contract_info".into()),
                 }
             } else if k == b"version_info" {
-                match get_version_info(&self.deps.storage) {
+                match serde_json::from_slice::<VersionInfoV1>(&v) {
                     Ok(vi) => {
                         s.ver = vi.version.clone();
                         if vi.definition != CRATE_NAME {
